@@ -28,13 +28,33 @@ PAIRS = {
     "plain->aliased": (lambda: Table("old"), lambda: Table("new", alias="nw")),
     "aliased->plain": (lambda: Table("old", alias="ol"), lambda: Table("new")),
     "schema->plain": (lambda: Table("old", schema="sc"), lambda: Table("new")),
+    # pairs whose "other" tables are near twins of old (see NEAR_TWINS)
+    "deep_schema->plain": (lambda: Table("old", schema=("live", "db", "sch")), lambda: Table("new")),
+    "deep4_schema->plain": (lambda: Table("old", schema=("srv1", "inst", "db", "sch")), lambda: Table("new")),
+    "aliased->aliased": (lambda: Table("old", alias="o1"), lambda: Table("new", alias="n1")),
+    "schema->schema": (lambda: Table("old", schema="sc"), lambda: Table("old", schema="sc2")),
+    # the replaced table is merged into the table every other slot already uses (a multi-table statement becomes single-table)
+    "plain->oth": (lambda: Table("old"), lambda: Table("oth")),
     "none->table": (lambda: None, lambda: Table("new")),
     "table->none": (lambda: Table("old"), lambda: None),
 }
 
 
+_OTHER = {"mk": None}
+
+
 def other():
-    return Table("oth")
+    """a table that is not the replaced one; for the near-twin pairs it differs from `old` in the outermost qualifier / the
+    alias only (references to it must stay what they are)"""
+    return _OTHER["mk"]() if _OTHER["mk"] else Table("oth")
+
+
+NEAR_TWINS = {
+    "deep_schema->plain": lambda: Table("old", schema=("archive", "db", "sch")),
+    "deep4_schema->plain": lambda: Table("old", schema=("srv2", "inst", "db", "sch")),
+    "aliased->aliased": lambda: Table("old", alias="o2"),
+    "schema->schema": lambda: Table("old"),
+}
 
 
 def fld(tab, name):
@@ -184,6 +204,56 @@ def s_update_set_subquery(tab, Q=Query):
     return Q.update(t("update")).set(fld(t("set_lhs"), "a"), val).where(fld(t("where"), "w").isin(Q.from_(t("where_sub_from")).select("x")))
 
 
+def s_cte_update(tab, Q=Query):
+    """WITH together with UPDATE / INSERT .. VALUES / DELETE (statements without a FROM list of their own)"""
+    t = tab
+    body = Q.from_(t("cte_from")).select(fld(t("cte_sel"), "c")).where(fld(t("cte_where"), "w") == 1)
+    return (Q.with_(body, "cte1").update(t("update")).set(fld(t("set_lhs"), "a"), 1)
+            .where(fld(t("where"), "id").isin(Q.from_(AliasedQuery("cte1")).select("c"))))
+
+
+def s_cte_insert_values(tab, Q=Query):
+    t = tab
+    body = Q.from_(t("cte_from")).select(fld(t("cte_sel"), "c"))
+    return Q.with_(body, "cte1").into(t("into")).columns("a").insert(Q.from_(AliasedQuery("cte1")).select(FN.Max(Field("c"))))
+
+
+def s_cte_delete(tab, Q=Query):
+    t = tab
+    body = Q.from_(t("cte_from")).select(fld(t("cte_sel"), "c"))
+    return Q.with_(body, "cte1").from_(t("from")).delete().where(fld(t("where"), "id").isin(Q.from_(AliasedQuery("cte1")).select("c")))
+
+
+def s_cte_terms(tab, Q=Query):
+    """the optional column list of with_(query, name, *terms), two CTEs"""
+    t = tab
+    b1 = Q.from_(t("cte_from")).select(fld(t("cte_sel"), "n"), fld(t("cte_sel"), "p"))
+    b2 = Q.from_(t("cte2_from")).select(fld(t("cte2_sel"), "z"))
+    return Q.with_(b1, "tree", "node", "parent").with_(b2, "flat").from_(AliasedQuery("tree")).select("node").where(fld(t("where"), "w") == 2)
+
+
+def s_setop_nested(tab, Q=Query):
+    """set operations whose operands are set operations (grouped), also inside a FROM clause"""
+    t = tab
+    q1, q2 = Q.from_(t("a_from")).select(fld(t("a_sel"), "a")), Q.from_(t("b_from")).select(fld(t("b_sel"), "a"))
+    q3, q4 = Q.from_(t("c_from")).select(fld(t("c_sel"), "a")), Q.from_(t("d_from")).select(fld(t("d_sel"), "a"))
+    grouped = (q1 + q2) * (q3 - q4)
+    return Q.from_(grouped).select("a").where(fld(t("where"), "w") == 1)
+
+
+def s_setop_nested_top(tab, Q=Query):
+    t = tab
+    q1, q2, q3 = (Q.from_(t(k + "_from")).select(fld(t(k + "_sel"), "a")) for k in ("a", "b", "c"))
+    return q2 + (q1 - q3)
+
+
+def s_update_where_foreign(tab, Q=Query):
+    """an UPDATE whose WHERE refers to a second table: whether columns are qualified is decided from the statement as it is
+    after the replacement"""
+    t = tab
+    return Q.update(t("update")).set(fld(t("set_lhs"), "a"), fld(t("set_rhs"), "b") + 1).where(fld(t("where_l"), "bal") < fld(t("where_r"), "floor"))
+
+
 def s_pg_returning_star(tab, Q=PostgreSQLQuery):
     t = tab
     return (Q.update(t("update")).set(fld(t("set_lhs"), "a"), 1).returning("*")
@@ -201,7 +271,7 @@ def s_delete_using(tab, Q=Query):
     return Q.from_(t("from")).delete().where(fld(t("where"), "w").isin(Q.from_(t("in_from")).select(fld(t("in_sel"), "i")).where(fld(t("in_where"), "q") == fld(t("corr"), "q"))))
 
 
-STMTS = {f.__name__[2:]: f for f in (s_from_multi, s_from_first_multi, s_on_subquery, s_update_set_subquery, s_twins, s_nested, s_from_nested, s_pg_returning_star, s_pg_insert_returning, s_delete_using, s_select, s_select2, s_cross, s_cte, s_insert, s_insert_select, s_update, s_update_from, s_update_join,
+STMTS = {f.__name__[2:]: f for f in (s_cte_update, s_cte_insert_values, s_cte_delete, s_cte_terms, s_setop_nested, s_setop_nested_top, s_update_where_foreign, s_from_multi, s_from_first_multi, s_on_subquery, s_update_set_subquery, s_twins, s_nested, s_from_nested, s_pg_returning_star, s_pg_insert_returning, s_delete_using, s_select, s_select2, s_cross, s_cte, s_insert, s_insert_select, s_update, s_update_from, s_update_join,
                                       s_delete, s_pg_returning, s_pg_distinct_on, s_setop)}
 
 
@@ -290,9 +360,15 @@ def expand(chunk):
     else:
         for slot in SLOTS[chunk["name"]]:
             for pair in PAIRS:
-                if "none" in pair and (chunk["name"], slot) in TABLE_POS:
-                    continue  # None cannot be a row source / target; slots that only qualify columns can hold it
+                if ("none" in pair or pair == "plain->oth") and (chunk["name"], slot) in TABLE_POS:
+                    continue  # None cannot be a row source / target (slots that only qualify columns can hold it); merging two
+                    # row sources into one changes automatic self-join aliases, which is not what this pair is about
                 yield {"kind": "stmt", "name": chunk["name"], "slot": slot, "pair": pair}
+                # the same statement built through every dialect's query class (their builders override parts of
+                # replace_table / get_sql)
+                if pair in ("plain->plain", "aliased->plain", "plain->oth") and not chunk["name"].startswith("pg_"):
+                    for qn in ("mysql", "postgresql", "sqlite", "mssql", "oracle"):
+                        yield {"kind": "stmt", "name": chunk["name"], "slot": slot, "pair": pair, "q": qn}
 
 
 def renders(o):
@@ -305,6 +381,11 @@ def renders(o):
             out.append((d + ":p", ps, fp.vrepr(pv)))
     if hasattr(o, "get_parameterized_sql") and callable(getattr(type(o), "get_sql", None)):
         try:
+            gp = o.get_parameterized_sql()
+            out.append(("gps", gp[0], fp.vrepr(gp[1])))
+        except Exception as e:
+            out.append(("gps", "!" + type(e).__name__))
+        try:
             out.append(("str", str(o)))
         except Exception as e:
             out.append(("str", "!" + type(e).__name__))
@@ -312,8 +393,17 @@ def renders(o):
 
 
 def run_case(case):
+    _OTHER["mk"] = NEAR_TWINS.get(case["pair"])
+    try:
+        return _run_case(case)
+    finally:
+        _OTHER["mk"] = None
+
+
+def _run_case(case):
     res = Result()
     mk_old, mk_new = PAIRS[case["pair"]]
+    Qd = fp.QCLS[case["q"]] if case.get("q") else None
     if case["kind"] == "term":
         n, b = ZOO_BY[case["name"]]
 
@@ -332,6 +422,8 @@ def run_case(case):
         fn = STMTS[case["name"]]
 
         def build(which):
+            if Qd is not None:
+                return fn(lambda s: which() if s == case["slot"] else other(), Qd)
             return fn(lambda s: which() if s == case["slot"] else other())
 
         sigsite = "%s.%s" % (case["name"], case["slot"])
